@@ -85,12 +85,13 @@ type Result struct {
 }
 
 type desc struct {
-	Case   *GCase `json:"case"`
-	Site   string `json:"site"`             // what was run: insert | insert-after-node-filter | filter()
-	Obs    *Obs   `json:"obs,omitempty"`    // implementation
-	Want   any    `json:"want,omitempty"`   // oracle
-	Pushed any    `json:"pushed,omitempty"` // eth_getLogs parameters
-	Shape  string `json:"shape,omitempty"`  // classification used by known_findings
+	Case      *GCase `json:"case"`
+	Site      string `json:"site"`                       // what was run: insert | insert-after-node-filter | filter()
+	Obs       *Obs   `json:"obs,omitempty"`              // implementation
+	Want      any    `json:"want,omitempty"`             // oracle
+	WantWhole any    `json:"want_whole_chain,omitempty"` // rows accepted over all logs of the chain (pushdown path)
+	Pushed    any    `json:"pushed,omitempty"`           // eth_getLogs parameters
+	Shape     string `json:"shape,omitempty"`            // classification used by known_findings
 }
 
 func nontrivial(c *GCase, ex Expect, obs Obs) bool {
@@ -107,6 +108,14 @@ func wantOf(ex Expect) any {
 		rows[i] = rowKey(r)
 	}
 	return map[string]any{"outcome": ex.Outcome, "why": ex.Why, "cols": ex.Cols, "rows": rows}
+}
+
+func acceptedOf(ex Expect) any {
+	rows := make([]string, len(ex.Accepted))
+	for i, r := range ex.Accepted {
+		rows[i] = rowKey(r)
+	}
+	return map[string]any{"accepted": rows, "undecided": ex.Undecided}
 }
 
 // Shape classifies a declaration by the features the known defects depend on.
@@ -185,8 +194,19 @@ func RunCase(c *GCase) []lib.Case {
 		})
 		seen, withheld := NodeFilter(addrs, topics, c.Blocks)
 		obs := RunInsert(c, EthBlocks(seen))
-		ex := Expected(c, c.Blocks) // the reference predicate over ALL logs of the chain
+		// (a) what indexing the DELIVERED chain must give: an error iff a delivered
+		//     log reaches a filter that cannot be evaluated, else the accepted rows
+		//     of the delivered logs
+		ex := Expected(c, seen)
 		ok, msg := Judge(ex, obs, false)
+		// (b) the property proper: every row the declaration accepts over ALL logs
+		//     of the chain is still accepted over the delivered ones (a log whose
+		//     evaluation raises an error is not an accepted log)
+		whole := Expected(c, c.Blocks)
+		if lost, judged := LostByRestriction(whole, ex); ok && judged && len(lost) > 0 {
+			ok = false
+			msg = fmt.Sprintf("%d accepted row(s) lost, e.g. %s", len(lost), lost[0])
+		}
 		if !ok {
 			msg = fmt.Sprintf("with the eth_getLogs restrictions applied (%d logs withheld, addresses %v): %s", withheld, addrs, msg)
 		}
@@ -196,7 +216,7 @@ func RunCase(c *GCase) []lib.Case {
 		}
 		res = append(res, lib.Case{
 			Coq: CInsert(c, seen, sighash, obs), Kind: kind, Nontrivial: nontrivial(c, ex, obs), OracleOK: ok, OracleMsg: msg,
-			Desc: desc{Case: c, Site: "insert-after-node-filter", Obs: &obs, Want: wantOf(ex), Pushed: pushed, Shape: Shape(c)}, Size: c.Size(),
+			Desc: desc{Case: c, Site: "insert-after-node-filter", Obs: &obs, Want: wantOf(ex), WantWhole: acceptedOf(whole), Pushed: pushed, Shape: Shape(c)}, Size: c.Size(),
 		})
 	default:
 		obs := RunInsert(c, EthBlocks(c.Blocks))
